@@ -73,10 +73,17 @@ def random_event(rng, gd, cls=None, max_items=3):
         ev.append([y, subs, rng.random() < 0.4])
         for v, s in subs:
             r = rng.random()
+            world = []
+            if rng.random() < 0.35:  # observe it through an alias: a world that sets a non-ancestor of v
+                non = [d for d in nodes if d not in ancestors(gd, [v]) and d != y]
+                if non:
+                    world = [[rng.choice(non), rng.random() < 0.3]]
             if r < 0.55:
-                ev.append([v, [], s])
+                ev.append([v, world, s])
             elif r < 0.8:
-                ev.append([v, [], not s])
+                ev.append([v, world, not s])
+        if rng.random() < 0.45:  # the same variable also in the factual world
+            ev.append([y, [], rng.random() < 0.5])
         n_items = max(n_items, len(ev))
     elif cls == "contradictory_pair":
         c = _conj(rng, gd)
